@@ -214,20 +214,27 @@ theorem Program_new_decompose (fl : Flags) (cls : CharClass) (o : Orders) (stmts
   obtain ⟨s1, constants, s3, known, h1, h2, h3, h4, h5, h6, _⟩ := Program_new_decompose' fl cls o stmts p hwf h
   exact ⟨s1, constants, s3, known, h1, h2, h3, h4, h5, h6⟩
 
-/-- **Accepted ⇒ sound.**  `known` is the list of names whose values exist before the first action of a cycle
-    (register outputs and constants). -/
-theorem Program_new_sound (fl : Flags) (cls : CharClass) (o : Orders) (stmts : List Stmt) (p : Program)
+/-- **Accepted ⇒ sound**, with the tables named: `s1` the tables of step 1, `s3` the register banks, `known` the names
+    whose values exist before the first action of a cycle (register outputs and constants), the width table
+    `finalWires s1 p.constants s3`; every action is one the loop produced for an assignment or a built-in component. -/
+theorem Program_new_sound' (fl : Flags) (cls : CharClass) (o : Orders) (stmts : List Stmt) (p : Program)
     (ho : OrdersOK o) (hwf : StmtsWF stmts)
     (h : Program.new fl cls o y86FixedFunctions stmts = .ok p) :
-    ∃ (W : AMap Width) (known : List String),
-      ProgramOK fl W.toCtx p.constants.toEnv p known ∧
-      ∃ vals, p.initialValues = .ok vals ∧ ValsOK W.toCtx vals ∧
-        (∀ n ∈ known, vals.contains n = true) ∧ (∀ b ∈ p.banks, BankOK W.toCtx vals b) := by
-  obtain ⟨s1, constants, s3, known, hyp, hknown, hact, hpc, hpb, _⟩ := Program_new_decompose fl cls o stmts p hwf h
-  obtain ⟨hsched, hgood, _⟩ := assignmentsToActions_sound fl o s1.assignments (finalWires s1 constants s3) known
-    y86FixedFunctions s1.declared constants p.actions ho y86Fixed_table hyp.s1inv.aKeys hact
+    ∃ (s1 : Step1) (s3 : Step3) (known : List String),
+      s1 = step1Of stmts ∧ s3 = step3Of fl cls s1 p.constants ∧ known = knownOf s1 p.constants s3 ∧
+      ((∀ f ∈ y86FixedFunctions, ∀ n w, f.outWire = some (n, w) → (finalWires s1 p.constants s3).get? n = some (.bits w)) ∧
+        ConstOK p.constants ∧ (∀ b ∈ s1.banksRaw, ∀ r ∈ b.regs, wfEx r.default = true)) ∧
+      ProgramOK fl (finalWires s1 p.constants s3).toCtx p.constants.toEnv p known ∧
+      (∀ a ∈ p.actions, GoodAction fl s1.assignments (finalWires s1 p.constants s3) p.constants y86FixedFunctions a) ∧
+      (∀ pr ∈ s1.assignments, wfEx pr.2 = true) ∧
+      ∃ vals, p.initialValues = .ok vals ∧ ValsOK (finalWires s1 p.constants s3).toCtx vals ∧
+        (∀ n ∈ known, vals.contains n = true) ∧ (∀ b ∈ p.banks, BankOK (finalWires s1 p.constants s3).toCtx vals b) := by
+  obtain ⟨s1, constants, s3, known, hyp, hknown, hact, hpc, hpb, _, e1, _, e3, e4, _, _⟩ := Program_new_decompose' fl cls o stmts p hwf h
+  subst hpc
+  obtain ⟨hsched, hgood, _⟩ := assignmentsToActions_sound fl o s1.assignments (finalWires s1 p.constants s3) known
+    y86FixedFunctions s1.declared p.constants p.actions ho y86Fixed_table hyp.s1inv.aKeys hact
   have hfix : ∀ f ∈ y86FixedFunctions, ∀ n w, f.outWire = some (n, w) →
-      (finalWires s1 constants s3).get? n = some (.bits w) := by
+      (finalWires s1 p.constants s3).get? n = some (.bits w) := by
     intro f hf n w hout
     have hn : n ∈ fixedNamesOf y86FixedFunctions := by
       have := List.all_eq_true.mp y86_out_in_names f hf
@@ -237,17 +244,17 @@ theorem Program_new_sound (fl : Flags) (cls : CharClass) (o : Orders) (stmts : L
     have := List.all_eq_true.mp y86W0_out f hf
     rw [hout] at this
     simpa using this
-  refine ⟨finalWires s1 constants s3, known, ⟨finalWires_ctxOK hyp, ?_, hsched⟩, ?_⟩
+  refine ⟨s1, s3, known, e1, e3, e4, ⟨hfix, hyp.cok, fun b hb r hr => (hyp.s1inv.banks b hb r hr).2⟩,
+    ⟨finalWires_ctxOK hyp, ?_, hsched⟩, hgood, hyp.s1inv.aWf, ?_⟩
   · intro a ha
-    rw [hpc]
-    exact goodAction_ok fl s1.assignments _ constants a hyp.s1inv.aWf hfix (hgood a ha)
+    exact goodAction_ok fl s1.assignments _ p.constants a hyp.s1inv.aWf hfix (hgood a ha)
   · -- the initial state
-    have hv0 : ValsOK (finalWires s1 constants s3).toCtx constants := by
+    have hv0 : ValsOK (finalWires s1 p.constants s3).toCtx p.constants := by
       intro n v hv
       exact ⟨finalWires_const hyp n v hv, (hyp.cok n v hv).2⟩
-    obtain ⟨vals, g1, g2, g3, g4⟩ := banks_fold_ok (finalWires s1 constants s3).toCtx s3.banks constants
+    obtain ⟨vals, g1, g2, g3, g4⟩ := banks_fold_ok (finalWires s1 p.constants s3).toCtx s3.banks p.constants
       (banks_ready hyp) hv0
-    refine ⟨vals, by rw [initialValues_eq, hpc, hpb]; exact g1, g2, ?_, ?_⟩
+    refine ⟨vals, by rw [initialValues_eq, hpb]; exact g1, g2, ?_, ?_⟩
     · intro n hn
       rcases (hknown n).mp hn with h1 | h1
       · simp only [bankOuts, List.mem_flatMap, List.mem_map] at h1
@@ -270,7 +277,19 @@ theorem Program_new_sound (fl : Flags) (cls : CharClass) (o : Orders) (stmts : L
         signals := by
           intro sg hsg
           obtain ⟨w1, w2⟩ := finalWires_sig hyp b hb sg hsg
-          exact ⟨by show (finalWires s1 constants s3).get? sg.1 = (finalWires s1 constants s3).get? sg.2.1; rw [w1, w2],
+          exact ⟨by show (finalWires s1 p.constants s3).get? sg.1 = (finalWires s1 p.constants s3).get? sg.2.1; rw [w1, w2],
             (gs sg hsg).1, (gs sg hsg).2⟩
         stall := gst
         bubble := gbu }
+
+/-- **Accepted ⇒ sound.**  `known` is the list of names whose values exist before the first action of a cycle
+    (register outputs and constants). -/
+theorem Program_new_sound (fl : Flags) (cls : CharClass) (o : Orders) (stmts : List Stmt) (p : Program)
+    (ho : OrdersOK o) (hwf : StmtsWF stmts)
+    (h : Program.new fl cls o y86FixedFunctions stmts = .ok p) :
+    ∃ (W : AMap Width) (known : List String),
+      ProgramOK fl W.toCtx p.constants.toEnv p known ∧
+      ∃ vals, p.initialValues = .ok vals ∧ ValsOK W.toCtx vals ∧
+        (∀ n ∈ known, vals.contains n = true) ∧ (∀ b ∈ p.banks, BankOK W.toCtx vals b) := by
+  obtain ⟨s1, s3, known, _, _, _, _, hp, _, _, hv⟩ := Program_new_sound' fl cls o stmts p ho hwf h
+  exact ⟨_, known, hp, hv⟩
